@@ -139,3 +139,69 @@ func ruleWiringF14(c *Ctx) {
 		}
 	}
 }
+
+// F15: element addresses that are kept stay valid. `&table[i]` kept in another object (ReloadableSink.downstreamPtr points
+// into the orchestrator's slot table) refers to the backing array the table had at that moment. If the table is a slice
+// field that is ever re-assigned (grown by allocate-and-copy, appended to), holders of old element addresses read and write
+// an abandoned array while everybody else uses the new one. For every kept element address whose container is a slice
+// loaded from a field, that field must be stored only in constructors. A fixed-size array field is always fine.
+func init() {
+	register("C17", "C17.R6", ruleStableAddrF15)
+}
+
+func ruleStableAddrF15(c *Ctx) {
+	nKept := 0
+	type kept struct {
+		field string
+		at    ssa.Instruction
+		fn    *ssa.Function
+	}
+	var slices []kept
+	for _, fn := range c.P.universe {
+		eachInstr(fn, func(in ssa.Instruction) {
+			st, ok := in.(*ssa.Store)
+			if !ok {
+				return
+			}
+			ia, ok := strip(st.Val).(*ssa.IndexAddr)
+			if !ok {
+				return
+			}
+			// kept: stored into a field (of a fresh or existing object) or a global — not into a local variable
+			switch a := st.Addr.(type) {
+			case *ssa.FieldAddr, *ssa.Global:
+				_ = a
+			default:
+				return
+			}
+			nKept++
+			// container: an array (through its address) is stable; a slice loaded from a field is the case to check
+			if _, isSlice := ia.X.Type().Underlying().(*types.Slice); !isSlice {
+				c.ok("C17.R6", fn, "a kept element address stays valid", in.Pos(), "the container is a fixed-size array ("+canonOf(ia.X)+"): its elements never move")
+				return
+			}
+			if f := fieldOf(ia.X); f != "" {
+				slices = append(slices, kept{f, in, fn})
+			} else {
+				c.bad("C17.R6", fn, "a kept element address stays valid", in.Pos(), "the address of an element of a slice that is not a field (its backing array can be replaced without trace) is kept in a long-lived object")
+			}
+		})
+	}
+	for _, k := range slices {
+		var bad []string
+		for _, fn := range c.P.universe {
+			for _, st := range storesToField(fn, k.field) {
+				if fa, ok := strip(st.Addr).(*ssa.FieldAddr); ok {
+					if _, fresh := fa.X.(*ssa.Alloc); fresh {
+						continue // constructor: the object is not shared yet
+					}
+				}
+				bad = append(bad, anchorName(fn)+" at "+c.P.pos(st.Pos()))
+			}
+		}
+		c.check(len(bad) == 0, "C17.R6", k.fn, "a kept element address stays valid", k.at.Pos(),
+			"the slice field "+k.field+" is stored only in constructors: its backing array never changes",
+			fmt.Sprintf("the address of an element of %s is kept in another object, but that slice field is re-assigned in %v: holders of the old address go on using the abandoned backing array (a reload closes and re-creates sinks in the new table while older connections still write through the old one)", k.field, bad))
+	}
+	c.floor("C17.R6", "element addresses kept in fields", nKept, 1)
+}
